@@ -4,6 +4,8 @@ import AllfedModel.Proofs.LP
 import AllfedModel.Proofs.Perturb
 import AllfedModel.Proofs.Certificate
 import AllfedModel.Proofs.Completeness
+import AllfedModel.Proofs.Handoff
+import Mathlib.Data.List.Forall2
 /-!
 # The feed-maximising round after a human-maximising round (property C16)
 
@@ -380,5 +382,130 @@ theorem round2_seaweed_pin_infeasible_before_fix :
   ⟨swInst, swX, swInst_wellFormed, swInst_ceilings, swX_feasible, swInst_pins,
     swInst_infeasible_before,
     round2_feasible_of_round1 swInst swX swInst_wellFormed swInst_ceilings swX_feasible swInst_pins⟩
+
+/-! ## the chain C18 → C16: the minimum-consumption series the hand-off produces are within what
+round 1 gave people -/
+
+section Chain
+open Allfed.Handoff
+
+/-- the bridge from the `Forall₂` shape of the hand-off theorems to `getD` -/
+theorem getD_le_of_forall₂ {a b : List K} (h : List.Forall₂ (· ≤ ·) a b) (k : Nat) :
+    a.getD k 0 ≤ b.getD k 0 := by
+  induction h generalizing k with
+  | nil => exact le_rfl
+  | cons hab _ ih =>
+    cases k with
+    | zero => exact hab
+    | succ k => simpa using ih k
+
+theorem getD_nonneg_of_forall {a : List K} (h : ∀ c ∈ a, 0 ≤ c) (k : Nat) : 0 ≤ a.getD k 0 := by
+  by_cases hk : k < a.length
+  · rw [List.getD_eq_getElem _ _ hk]; exact h _ (List.getElem_mem _)
+  · rw [List.getD_eq_default _ _ (not_lt.mp hk)]
+
+/-- month `m` of the hand-off's result is `fillMonth` of month `m` of its input -/
+theorem handoffEntry_eq (i : Inp K) (x : Var → K) (u cap : K) (m k : Nat) (hm : m < i.nmonths) :
+    handoffEntry i x u cap m k = (fillMonth cap (humanRow i x u m)).getD k 0 := by
+  unfold handoffEntry minNeeds round1Rows
+  have hrow : (List.map (fillMonth cap) (List.map (humanRow i x u) (List.range i.nmonths))).getD m []
+      = fillMonth cap (humanRow i x u m) := by
+    rw [List.map_map, List.getD_eq_getElem (d := ([] : List K)) _ (by simpa using hm)]
+    simp only [List.getElem_map, List.getElem_range, Function.comp]
+  rw [hrow]
+
+/-- one entry of the hand-off: between 0 and the corresponding entry of its input -/
+theorem handoffEntry_bounds (i : Inp K) (x : Var → K) (u cap : K) (m k : Nat) (hm : m < i.nmonths)
+    (hcap : 0 ≤ cap) (hrow : ∀ f ∈ humanRow i x u m, 0 ≤ f) :
+    0 ≤ handoffEntry i x u cap m k ∧ handoffEntry i x u cap m k ≤ (humanRow i x u m).getD k 0 := by
+  rw [handoffEntry_eq i x u cap m k hm]
+  exact ⟨getD_nonneg_of_forall (Proofs.fillMonth_nonneg cap _ hcap hrow) k,
+    getD_le_of_forall₂ (Proofs.fillMonth_le cap _ hcap hrow) k⟩
+
+/-- the list → `getD` bridge for one food: `u·min = entry k` and `entry k` of the input is
+    `u·eaten` give `0 ≤ min ≤ eaten` -/
+theorem pinsWithin_of_entry {u mn eaten e inp : K} (hu : 0 < u) (hmin : u * mn = e)
+    (hinp : inp = u * eaten) (h0 : 0 ≤ e) (hle : e ≤ inp) : 0 ≤ mn ∧ mn ≤ eaten := by
+  rw [← hmin] at h0 hle
+  rw [hinp] at hle
+  exact ⟨nonneg_of_mul_nonneg_right h0 hu, le_of_mul_le_mul_left hle hu⟩
+
+theorem humanRow_nonneg (i : Inp K) (x : Var → K) (u : K) (m : Nat) (hu : 0 ≤ u)
+    (hx : ∀ v, 0 ≤ x v) (hkc : 0 ≤ i.seaweedKcals)
+    (hconst : 0 ≤ at' i.fish m ∧ 0 ≤ at' i.milk m ∧ 0 ≤ at' i.greenhouse m) :
+    ∀ f ∈ humanRow i x u m, 0 ≤ f := by
+  have hX : ∀ (on : Bool) (k : VK), 0 ≤ X x on k m := by
+    intro on k; unfold X; split_ifs
+    · exact hx _
+    · exact le_rfl
+  intro f hf
+  unfold humanRow at hf
+  simp only [List.mem_cons, List.not_mem_nil, or_false] at hf
+  rcases hf with rfl | rfl | rfl | rfl | rfl | rfl | rfl | rfl | rfl
+  · exact mul_nonneg hu hconst.1
+  · exact mul_nonneg hu (hX _ _)
+  · exact mul_nonneg hu hconst.2.1
+  · exact mul_nonneg hu hconst.2.2
+  · exact mul_nonneg hu (hX _ _)
+  · exact mul_nonneg hu (hX _ _)
+  · exact mul_nonneg hu (hX _ _)
+  · exact mul_nonneg hu (hX _ _)
+  · exact mul_nonneg hu (mul_nonneg (hX _ _) hkc)
+
+/-- the minimum-consumption series the hand-off produces lie between 0 and what round 1 gave -/
+theorem pinsWithin_of_handoff (i : Inp K) (x₁ : Var → K) (u cap : K) (hu : 0 < u) (hcap : 0 ≤ cap)
+    (hx : ∀ v, 0 ≤ x₁ v) (hkc : 0 ≤ i.seaweedKcals)
+    (hconst : ∀ m, m < i.nmonths → 0 ≤ at' i.fish m ∧ 0 ≤ at' i.milk m ∧ 0 ≤ at' i.greenhouse m)
+    (hmins : MinsFromHandoff i x₁ u cap) : PinsWithin i x₁ := by
+  have hb : ∀ m k, m < i.nmonths →
+      0 ≤ handoffEntry i x₁ u cap m k ∧
+      handoffEntry i x₁ u cap m k ≤ (humanRow i x₁ u m).getD k 0 :=
+    fun m k hm => handoffEntry_bounds i x₁ u cap m k hm hcap
+      (humanRow_nonneg i x₁ u m hu.le hx hkc (hconst m hm))
+  have hX : ∀ {on : Bool} (k : VK) (m : Nat), on = true → X x₁ on k m = x₁ (.mv k m) := by
+    intro on k m hon; unfold X; rw [if_pos hon]
+  refine ⟨?_, ?_, ?_, ?_, ?_, ?_⟩
+  · intro hon m hm
+    refine pinsWithin_of_entry hu (hmins.seaweed hon m hm) ?_ (hb m 8 hm).1 (hb m 8 hm).2
+    show u * (X x₁ i.addSeaweed .swHumans m * i.seaweedKcals) = _
+    rw [hX _ _ hon]
+  · intro hon m hm
+    refine pinsWithin_of_entry hu (hmins.crops hon m hm) ?_ (hb m 4 hm).1 (hb m 4 hm).2
+    show u * X x₁ i.addOutdoor .cropHumans m = _
+    rw [hX _ _ hon]
+  · intro hon m hm
+    refine pinsWithin_of_entry hu (hmins.stored hon m hm) ?_ (hb m 5 hm).1 (hb m 5 hm).2
+    show u * X x₁ i.addStored .sfHumans m = _
+    rw [hX _ _ hon]
+  · intro hon m hm
+    refine pinsWithin_of_entry hu (hmins.meat hon m hm) ?_ (hb m 1 hm).1 (hb m 1 hm).2
+    show u * X x₁ i.addMeat .meatEaten m = _
+    rw [hX _ _ hon]
+  · intro hon m hm
+    refine pinsWithin_of_entry hu (hmins.scp hon m hm) ?_ (hb m 6 hm).1 (hb m 6 hm).2
+    show u * X x₁ i.addScp .scpHumans m = _
+    rw [hX _ _ hon]
+  · intro hon m hm
+    refine pinsWithin_of_entry hu (hmins.cs hon m hm) ?_ (hb m 7 hm).1 (hb m 7 hm).2
+    show u * X x₁ i.addCs .csHumans m = _
+    rw [hX _ _ hon]
+
+/-- after a feasible human-maximising round and the hand-off, the feed-maximising round is feasible -/
+theorem round2_feasible_after_handoff (i : Inp K) (x₁ : Var → K) (u cap : K) (hu : 0 < u)
+    (hcap : 0 ≤ cap) (hw : WellFormed i)
+    (hceil : anyFeedVar i = true → ∀ m, m < i.nmonths → 0 ≤ at' i.maxFeed m ∧ 0 ≤ at' i.maxBiofuel m)
+    (hconst : ∀ m, m < i.nmonths → 0 ≤ at' i.fish m ∧ 0 ≤ at' i.milk m ∧ 0 ≤ at' i.greenhouse m)
+    (h₁ : Feasible (buildLP i .toHumans) x₁) (hmins : MinsFromHandoff i x₁ u cap) :
+    ∃ x, Feasible (buildLP i .toAnimals) x :=
+  round2_feasible_of_round1 i x₁ hw hceil h₁
+    (pinsWithin_of_handoff i x₁ u cap hu hcap h₁.2 hw.2.2.2.2.2.2.2.2.2.2.1 hconst hmins)
+
+/-- the ceiling the code uses is non-negative -/
+theorem dailyMax_nonneg (kd p1 T : K) (hkd : 0 ≤ kd) (hp : 0 ≤ p1) (hT : 0 ≤ T) :
+    0 ≤ dailyMax kd p1 T := by
+  rw [Proofs.dailyMax_eq_min]
+  exact mul_nonneg hkd (div_nonneg (le_min hp hT) (by norm_num))
+
+end Chain
 
 end Allfed.Proofs.Round2
